@@ -354,15 +354,32 @@ def check_case(R, np, tf_cache, i, o, preserve, layout, raws, mrep, classes=None
     return problems
 
 
-def oracle_values(R, np, i, o, raws, got, spec, classes=None):
+GUARD_IDS = ["uint64-top-wraps-to-zero", "int64-to-uint64-through-float64",
+             "float64-to-float32-overflows-to-inf"]
+
+
+def oracle_values(R, np, i, o, raws, got, spec, guards, classes=None):
     """Apply the oracle to the implementation's results for finite inputs.
-    spec = extracted nearest_sat_of replies [(finite?, expected raw)]."""
+    spec = extracted nearest_sat_of replies [(finite?, expected raw)];
+    guards = extracted guard triples (Convert.uint64_top_guard, int64_via_float_guard,
+    float32_overflow_guard) per value: a false guard names the finding region."""
     problems = 0
     for k, b in enumerate(raws):
         if not raw_is_finite(i, b):
             continue
         q = exact(i, b)
         want = ref_nearest(o, q)
+        ext_region = None
+        for gid, gv in zip(GUARD_IDS, guards[k]):
+            if str(gv) != "true":
+                ext_region = gid
+                break
+        if ext_region != finding_region(i, o, q):
+            R.violation("extracted guard and the harness's region predicate disagree (harness self-check)",
+                        {"in": i, "out": o, "values": [b]},
+                        {"extracted": ext_region, "harness": finding_region(i, o, q)})
+            problems += 1
+            continue
         fin, s_want = str(spec[k][0]) == "true", spec[k][1]
         if not fin or s_want != want:
             R.violation("extracted nearest_sat disagrees with the Fraction restatement (harness self-check)",
@@ -459,8 +476,10 @@ def run(R):
                 for (preserve, wr, nat) in flagsets:
                     reqs.append(("convert", [Atom(i), Atom(o), preserve, wr, nat, raws]))
             reqs.append(("nearest_sat_of", [Atom(i), Atom(o), fin]))
+            reqs.append(("guards", [Atom(i), Atom(o), fin]))
             reps = R.model.batch(reqs)
-            spec = reps[-1]
+            spec = reps[-2]
+            guards = reps[-1]
             ridx = 0
             for sn, raws in streams:
                 mreps = {}
@@ -487,7 +506,7 @@ def run(R):
                     arr = to_array(np, i, raws, (len(raws) // 4, 4))
                     with np.errstate(all="ignore"):
                         got = from_array(np, tf_cache[(i, o)](arr))
-                    oracle_values(R, np, i, o, raws, got, spec)
+                    oracle_values(R, np, i, o, raws, got, spec, guards)
                     # and the in-place mode must give the same values
                     with np.errstate(all="ignore"):
                         got2 = from_array(np, tf_cache[(i, o)](arr.copy(), preserve_input=False))
@@ -496,6 +515,32 @@ def run(R):
                         R.violation("result depends on preserve_input",
                                     {"in": i, "out": o, "values": [raws[k]], "layout": "contig"},
                                     {"preserve": got[k], "inplace": got2[k]})
+    # ------------------------------------------------------------ dtype assertion
+    from harness.common import outcome_of, model_outcome
+    from neuroglancer_scripts.data_types import get_chunk_dtype_transformer
+    combos = [(c, i, o) for c in INS for i in INS for o in OUTS if c != i]
+    rng.shuffle(combos)
+    combos = combos[:60 if quick else 450] + [(i, i, "uint8") for i in INS]
+    reps = R.model.batch([("convert_chk", [Atom(c), Atom(i), Atom(o), True, True, True,
+                                           [1, 2, 3, 4] if not is_float(c) else
+                                           [f64_bits(1.0) if c == "float64" else f32_bits(1.0)] * 4])
+                          for c, i, o in combos])
+    for (c, i, o), rep in zip(combos, reps):
+        raws = [1, 2, 3, 4] if not is_float(c) else [f64_bits(1.0) if c == "float64" else f32_bits(1.0)] * 4
+        arr = to_array(np, c, raws, (1, 4))
+
+        def call():
+            with np.errstate(all="ignore"):
+                return from_array(np, get_chunk_dtype_transformer(i, o, warn=False)(arr))
+        impl = outcome_of(call)
+        mod = model_outcome(rep)
+        if mod[0] == "ok":
+            mod = ["ok", [canon(o, b) for b in mod[1][0]]]
+        case = {"chunk_dtype": c, "in": i, "out": o, "values": raws}
+        R.case(case, nontrivial=(c != i))
+        R.count("dtype-assertion:" + (impl[0] if impl[0] == "ok" else impl[-1]))
+        if impl != mod:
+            R.disagree("dtype assertion of the transformer", case, impl, mod)
     R.extra["values_per_input_dtype"] = {i: len(values[i]) for i in INS}
     R.notes.append("NaN -> uint32 is excluded from the bit-exact comparison: NumPy's vectorised cast "
                    "returns 2^31 or 0 depending on the element's position")
@@ -525,10 +570,11 @@ def replay(R, payload):
     wr, nat = layout_flags(layout, i)
     mrep = R.model.call("convert", [Atom(i), Atom(o), preserve, wr, nat, raws])
     spec = R.model.call("nearest_sat_of", [Atom(i), Atom(o), raws])
+    guards = R.model.call("guards", [Atom(i), Atom(o), raws])
     n = check_case(R, np, {}, i, o, preserve, layout, raws, mrep, record=False)
     from neuroglancer_scripts.data_types import get_chunk_dtype_transformer
     arr = to_array(np, i, raws, (len(raws) // 4, 4))
     with np.errstate(all="ignore"):
         got = from_array(np, get_chunk_dtype_transformer(i, o, warn=False)(arr))
-    n += oracle_values(R, np, i, o, raws, got, spec)
+    n += oracle_values(R, np, i, o, raws, got, spec, guards)
     return bool(n or R.violations or R.disagreements)
